@@ -81,6 +81,106 @@ def check_filters():
     return None
 
 
+def check_filtered_fast_packets():
+    """C10, fast packets of one PGN number with several ids (130820 Fusion, 130816 SonicHub, 126720): a message filtered out by
+    id must not disturb the next message of the same stream - also when the sender reuses the sequence counter."""
+    from nmea2000.decoder import NMEA2000Decoder
+    from spec.canboat import DB, sample_payload
+    from props.C04_scenarios import frames_of
+    db = DB()
+    for pgn in (130820, 130816, 126720):
+        defs = [d for d in db.groups.get(pgn, []) if d.match_fields and not d.fallback and d.first_unsupported is None][:4]
+        if len(defs) < 2:
+            continue
+        lines = []
+        for rep in range(2):
+            for k, d in enumerate(defs):
+                p = sample_payload(d, k)
+                for fr in frames_of(p, 3 if rep == 0 else (k % 2), 0xFF):       # rep 0: every message with the same counter
+                    lines.append((f"2022-09-28-11:36:59.668,3,{pgn},9,255,8," + ','.join(f'{b:02x}' for b in fr), False))
+        for cfg in ({'exclude_pgns': [defs[0].id]}, {'exclude_pgns': [defs[1].id.upper()]}, {'include_pgns': [defs[1].id]}, {'include_pgns': [defs[0].id, 127250]},
+                    {'exclude_pgns': [defs[0].id, defs[1].id]}):
+            base = decode_all(NMEA2000Decoder(), lines)
+            got = decode_all(NMEA2000Decoder(**cfg), lines)
+            for i, (b, g) in enumerate(zip(base, got)):
+                want = b if (b is not None and not isinstance(b, tuple) and permitted(cfg, b)) else (b if isinstance(b, tuple) else None)
+                if sig(g) != sig(want):
+                    return {'config': cfg, 'step': i, 'frames': [l for l, _ in lines[:i + 1]][-12:], 'observed': str(sig(g))[:300], 'expected': str(sig(want))[:300]}
+    return None
+
+
+def check_hash_presence():
+    """C17: with network mapping on every returned message carries a hash (also one of a source that never claimed and is
+    returned after the discovery window), equal for equal id + key fields whatever the source; with mapping off none."""
+    import datetime
+    import hashlib
+    from nmea2000.decoder import NMEA2000Decoder
+    dec = NMEA2000Decoder(build_network_map=True)
+    dec.started_at = dec.started_at - datetime.timedelta(minutes=11)
+    out = []
+    for line, comb in [(CLAIM_A, True), (HEAT_5, False), (HEAT_7, False), (RATE_9, False), (PROP_5, False)] + [(f, False) for f in FAST]:
+        try:
+            m = dec.decode_basic_string(line, comb)
+        except Exception:  # noqa
+            continue
+        if m is None:
+            continue
+        key = m.id + ''.join('_' + str(f.raw_value) for f in m.fields if f.part_of_primary_key)
+        want = hashlib.md5(key.encode()).hexdigest()
+        if m.hash != want:
+            return {'frame': line, 'source': m.source, 'source_identity_known': m.source_iso_name is not None, 'observed': m.hash, 'expected': f'md5({key!r}) = {want}',
+                    'history': 'network mapping on, decoder started 11 minutes ago, only address 5 has claimed'}
+        out.append(m)
+    off = NMEA2000Decoder(build_network_map=False).decode_basic_string(HEAT_5, False)
+    if off is not None and off.hash is not None:
+        return {'frame': HEAT_5, 'observed': off.hash, 'expected': None, 'history': 'network mapping off'}
+    if len(out) < 4:
+        return {'observed': f'only {len(out)} messages returned', 'expected': 'the unclaimed sources are returned after the discovery window'}
+    return None
+
+
+def check_ignored_then_supported():
+    """C16: an input that is ignored (no definition of its PGN matches it; unknown PGN; undecodable text) never changes what the
+    decoder returns later - a supported message of the SAME PGN decodes as on a fresh decoder."""
+    from nmea2000.decoder import NMEA2000Decoder
+    from spec.canboat import DB, sample_payload
+    db = DB()
+
+    def line(pgn, payload):
+        return f"2022-09-28-11:36:59.668,3,{pgn},9,255,{len(payload)}," + ','.join(f'{b:02x}' for b in payload)
+    for pgn, group in db.multi_groups():
+        if any(d.fallback for d in group):
+            continue
+        good = [d for d in group if d.first_unsupported is None and d.match_fields][:2]
+        if not good:
+            continue
+        # a payload that matches no definition: manufacturer code 0x7FE with the industry code of the first definition
+        bogus = bytearray(sample_payload(good[0], 0))
+        bogus[0], bogus[1] = 0xFE, (bogus[1] & 0xF8) | 0x07
+        if db.dispatch(pgn, lambda o, L: (int.from_bytes(bytes(bogus), 'little') >> o) & ((1 << L) - 1)) is not None:
+            continue
+        dec = NMEA2000Decoder()
+        for noise in (line(pgn, bytes(bogus)), line(131071, bytes(8)), 'garbage,not,a,frame'):
+            try:
+                dec.decode_basic_string(noise, True)
+            except Exception:  # noqa
+                pass
+        for d in good:
+            ln = line(pgn, sample_payload(d, 1))
+            try:
+                want = sig(NMEA2000Decoder().decode_basic_string(ln, True))
+            except Exception:  # noqa
+                continue
+            try:
+                got = sig(dec.decode_basic_string(ln, True))
+            except Exception as e:  # noqa
+                got = ('raise', type(e).__name__)
+            if got != want:
+                return {'pgn': pgn, 'ignored_input': line(pgn, bytes(bogus)), 'frame': ln, 'observed': str(got)[:200], 'expected': str(want)[:200],
+                        'history': 'a frame of the same PGN that matches no definition, an unknown PGN and an undecodable line were fed (and ignored) before'}
+    return None
+
+
 def check_identity():
     """C11: identity attached = latest claim of the source address; manufacturer lists; withholding."""
     from nmea2000.decoder import NMEA2000Decoder
@@ -135,14 +235,23 @@ def check_dump():
     return None
 
 
-BATTERY = {'C10': [check_filters], 'C11': [check_identity, check_filters], 'C15': [check_dump], 'C16': [check_filters, check_identity], 'C08': []}
+BATTERY = {'C10': [check_filters, check_filtered_fast_packets], 'C11': [check_identity, check_filters], 'C15': [check_dump], 'C16': [check_filters, check_identity, check_filtered_fast_packets, check_ignored_then_supported], 'C08': [], 'C17': [check_hash_presence]}
+
+
+_MEMO = {}
+
+
+def memo(fn):
+    if fn.__name__ not in _MEMO:
+        _MEMO[fn.__name__] = fn()
+    return _MEMO[fn.__name__]
 
 
 def replay_for(prop, scenario, model):
     small = {k: v for k, v in model.items() if v not in (0, False)}
     for fn in BATTERY.get(prop, []):
         try:
-            f = fn()
+            f = memo(fn)
         except Exception as e:  # noqa
             import traceback
             return {'confirmed': None, 'note': 'scenario harness error: ' + traceback.format_exc()[-400:], 'solver_model': small}
@@ -155,7 +264,7 @@ def replay_for(prop, scenario, model):
 def fallback_results(prop):
     out = []
     for fn in BATTERY.get(prop, []):
-        f = fn()
+        f = memo(fn)
         if f is not None:
             out.append({'obligation': f'{prop}/decoder.NMEA2000Decoder._decode/bounded-fallback[{fn.__name__}]', 'kind': 'bounded', 'status': 'refuted',
                         'backend': 'native-scenarios', 'seconds': 0.0, 'model': {}, 'replay': {'confirmed': True, 'inputs': f}})
@@ -181,6 +290,11 @@ def check_dispatch():
                 p |= int(f.match) << f.offset_bits
             n = max(8, (max((f.offset_bits + f.L for f in d.match_fields), default=0) + 7) // 8)
             payloads.append((d, p, n))
+            # the same message cut short (fewer data bytes than a CAN frame): the missing bits read as 0, never as a match value
+            for k in (2, 3, 5, 7):
+                if k < n:
+                    payloads.append((d, p & ((1 << (8 * k)) - 1), k))
+        payloads = payloads[:14]
         for (da, pa, na), (db_, pb, nb) in itertools.permutations(payloads, 2):
             for (d, p, n) in ((da, pa, na), (db_, pb, nb)):
                 exp = db.dispatch(pgn, lambda o, L: (p >> o) & ((1 << L) - 1))
